@@ -140,13 +140,17 @@ NameClauses(o, in, ch) ==
       addTotal == AddTotal(o, in)
       uw == UnitOf(o, in)
       E == EscName(o, in.toks)
-      hadTwice(x) == \E i \in 1..Len(E) : i + 2 <= Len(E) /\ E[i] = x /\ IsSep(E[i + 1]) /\ E[i + 2] = x
+      hadTwice(x) == \E i \in 1..Len(E) : \/ (i + 2 <= Len(E) /\ E[i] = x /\ IsSep(E[i + 1]) /\ E[i + 2] = x)
+                                            \/ (i + 1 <= Len(E) /\ E[i] = x /\ E[i + 1] = x)   \* glued: totaltotal
       inName == uw # "" /\ \E i \in 1..Len(E) : TokEndsWith(E[i], uw)
+      (* a suffix word followed by stray delimiters (seconds. / foo_total_): whether the name "already  *)
+      (* carries" the suffix is not decided by the statement                                             *)
+      stray == TrailSeps(E) > 0
   IN /\ LegalName(o, t)
      /\ addTotal => EndsWithTotal(t)
      /\ (uw # "" /\ ~inName) => EndsWithUnit(BeforeTotal(t, addTotal), uw)   \* unit, then _total last
-     /\ (addTotal /\ ~hadTwice(TOTAL) /\ Len(E) > 1) => ~Duplicated(t, TOTAL)
-     /\ (uw # "" /\ ~hadTwice(UnitTok(uw))) => ~Duplicated(BeforeTotal(t, addTotal), UnitTok(uw))
+     /\ (addTotal /\ ~hadTwice(TOTAL) /\ Len(E) > 1 /\ ~stray) => ~Duplicated(t, TOTAL)
+     /\ (uw # "" /\ ~hadTwice(UnitTok(uw)) /\ ~stray) => ~Duplicated(BeforeTotal(t, addTotal), UnitTok(uw))
 
 (* ---------------------------------------------------------------- labels     *)
 (* legacy label names: [a-zA-Z_][a-zA-Z0-9_]* ; anything else -> "_"           *)
@@ -171,7 +175,14 @@ Labels(o, as) ==
 Lab(n, v) == [n |-> n, vs |-> {v}]
 LabelNames(ls) == {l.n : l \in ls}
 
-ScopeLabels(o, scope) == IF o.noScope THEN {} ELSE {Lab("otel_scope_name", scope), Lab("otel_scope_version", "v" \o scope)}
+(* an instrumentation scope is identified by (name, version, schema URL); env.scopes lists the scopes whose  *)
+(* identity is not the default (name = id, version = "v" \o id, no schema URL).  The scope labels carry       *)
+(* name and version only, so two scopes may have the same labels.                                             *)
+ScopeRec(env, sid) == IF \E i \in 1..Len(env.scopes) : env.scopes[i].id = sid
+                      THEN env.scopes[CHOOSE i \in 1..Len(env.scopes) : env.scopes[i].id = sid]
+                      ELSE [id |-> sid, name |-> sid, version |-> "v" \o sid, url |-> ""]
+ScopeLabels(env, sid) == IF env.o.noScope THEN {}
+                         ELSE LET r == ScopeRec(env, sid) IN {Lab("otel_scope_name", r.name), Lab("otel_scope_version", r.version)}
 ConstLabels(o, res) == IF o.resConst THEN Labels(o, SelectSeq(res, LAMBDA a : \E i \in Range(o.resKeys) : res[i] = a)) ELSE {}
 
 (* ---------------------------------------------------------------- values     *)
@@ -208,12 +219,15 @@ NativeBuckets(scale, off, cnt) ==
 (*                    the series is not exposed                                *)
 (*   ExpScaleDrop   : an exponential histogram point with scale > 8 is not     *)
 (*                    exposed                                                  *)
-Deviations == {"EmptyStemPanic", "HelpEmptyFirst", "ColonKey", "ExpScaleDrop"}
+(*   DupScopeInfo   : two scopes that differ only in schema URL get two         *)
+(*                    identical otel_scope_info series: the registry rejects   *)
+(*                    the scrape                                               *)
+Deviations == {"EmptyStemPanic", "HelpEmptyFirst", "ColonKey", "ExpScaleDrop", "DupScopeInfo"}
 
 (* ---------------------------------------------------------------- one scrape *)
 (* stream = [inst, scope, data, points]; point = [as, val, count, sum, counts, *)
 (*           scale, zero, poff, pcnt, noff, ncnt]  (the SDK's cumulative view) *)
-(* env = [o, res, insts, ases, bounds]; as = index into env.ases                *)
+(* env = [o, res, insts, ases, bounds, scopes]; as = index into env.ases        *)
 InstOf(env, id) == CHOOSE in \in Range(env.insts) : in.id = id
 InstIds(env) == {in.id : in \in Range(env.insts)}
 NameMap(env, ch) == [id \in InstIds(env) |-> Name(env.o, InstOf(env, id), ch)]
@@ -226,7 +240,7 @@ XSeries(env, st, p, dv) ==
   LET o == env.o
       as == env.ases[p.as]
       al == Labels(o, as)
-      fixed == ScopeLabels(o, st.scope) \cup ConstLabels(o, env.res)
+      fixed == ScopeLabels(env, st.scope) \cup ConstLabels(o, env.res)
       (* an attribute whose sanitised key equals a scope / constant label: the rules do *)
       (* not say what happens; the series may be missing, only its values are checked   *)
       loose == LabelNames(al) \cap LabelNames(fixed) # {}
@@ -278,7 +292,7 @@ Scrape(env, streams, cache, nm, dv) ==
                                   : i \in 1..Len(good)}
                 IN [name |-> n, typ |-> es[1].typ, help |-> es[1].eh, anyHelp |-> FALSE,
                     series |-> {x \in all : x.presence # "absent"}]
-      reject == \E i, j \in 1..Len(sh) : sh[i].name = sh[j].name /\ sh[i].eh # sh[j].eh
+      helpClash == \E i, j \in 1..Len(sh) : sh[i].name = sh[j].name /\ sh[i].eh # sh[j].eh
       target == IF o.noTarget THEN {}
                 ELSE {[name |-> "target_info", typ |-> "gauge", help |-> "", anyHelp |-> TRUE,
                        series |-> {InfoSeries(Labels(o, env.res), "must")}]}
@@ -288,12 +302,15 @@ Scrape(env, streams, cache, nm, dv) ==
       (* were all dropped may or may not have one                                           *)
       scopeInfo == IF o.noScope \/ allScopes = {} THEN {}
                    ELSE {[name |-> "otel_scope_info", typ |-> "gauge", help |-> "", anyHelp |-> TRUE,
-                          series |-> {InfoSeries(ScopeLabels(o, s), "must") : s \in shownScopes}
-                                     \cup {InfoSeries(ScopeLabels(o, s), "may") : s \in allScopes \ shownScopes}]}
+                          series |-> {InfoSeries(ScopeLabels(env, s), "must") : s \in shownScopes}
+                                     \cup {InfoSeries(ScopeLabels(env, s), "may") : s \in
+                                              {q \in allScopes \ shownScopes : \A z \in shownScopes : ScopeLabels(env, z) # ScopeLabels(env, q)}}]}
+      (* two scopes with equal labels: ONE scope info series (a set); the deviation emits it twice *)
+      dupScope == ~o.noScope /\ \E s1, s2 \in allScopes : s1 # s2 /\ ScopeLabels(env, s1) = ScopeLabels(env, s2)
       panic == "EmptyStemPanic" \in dv /\ \E i \in 1..Len(streams) :
                   LET in == InstOf(env, streams[i].inst) IN AddTotal(o, in) /\ EscName(o, in.toks) = <<TOTAL>>
   IN [cache |-> w.cache, fams |-> {fam(n) : n \in {sh[i].name : i \in 1..Len(sh)}} \cup target \cup scopeInfo,
-      panic |-> panic, reject |-> reject]
+      panic |-> panic, reject |-> helpClash \/ ("DupScopeInfo" \in dv /\ dupScope)]
 
 (* ---------------------------------------------------------------- matching   *)
 (* obs = what a real scrape exposed (projection written by the harness):       *)
